@@ -532,7 +532,7 @@ func c27() {
 		r.Inconclusive("strace not installed")
 		r.Finish("strace missing", 1)
 	}
-	nCases := r.Pick(10, 80)
+	nCases := r.Pick(8, 80)
 	sizes := c27Sizes(r, nCases)
 	scratch := r.Scratch()
 	errnos := []string{"EIO", "ENOSPC", "EACCES", "EINTR", "EDQUOT", "EROFS"}
